@@ -10,4 +10,8 @@ fi
 if [ "$1" = "replay" ]; then
   exec bin/vcheck replay "$2"
 fi
+if [ "${2:-quick}" = "thorough" ]; then
+  # a thorough run that is still enumerating after 90 minutes stops there and reports exhaustive:false
+  exec bin/vcheck check "$1" --tier thorough --budget 90m
+fi
 exec bin/vcheck check "$1" --tier "${2:-quick}"
